@@ -1,18 +1,26 @@
 """C12 - df_fillna / nona fill or drop exactly the missing cells, arrays and pandas alike.
 
-TLA+ (spec/Fill.tla) decides; this driver renders abstract frames (cells: -1 = NaN, values >= 0) into
-numpy arrays / pd.Series / pd.DataFrame, calls df_fillna / nona, and encodes result and argument."""
-import datetime, math, warnings
+TLA+ (spec/Fill.tla) decides; this driver renders abstract frames (cells: -1 = NaN, values >= 0, symbolic codes
+for the strange floats: spec/Fill.tla Specials) into numpy arrays / pd.Series / pd.DataFrame, calls df_fillna /
+nona - single calls and histories of calls on shared objects - and encodes results and arguments."""
+import datetime, math, struct, sys, warnings
 import numpy as np
 import pandas as pd
 from harness.x_pool import pmap
 
 NAN = -1
+# Fill.tla Specials: floats that are NOT missing
+SPECIAL = {-2: float('inf'), -3: float('-inf'), -4: -0.0, -5: sys.float_info.max, -6: -sys.float_info.max,
+           -7: 5e-324, -8: 0.5, -9: -3.5}
+BITS = {struct.pack('<d', v): c for c, v in SPECIAL.items()}
+UNEXPLAINED, UNREADABLE = -99, -98
 BASE = datetime.datetime(2020, 1, 1)
-# row label -> date of the S2C replays: an irregular daily index (gaps, a weekend, a month end)
+# row label code -> offset of the S2C replays: an irregular index (gaps, a weekend, a month end); the first is 0
 S2C_OFFSETS = [0, 1, 2, 5, 6, 9, 30, 31, 33, 40, 41, 45]
 COLNAMES = ['a', 'b', 'c', 'd']
 FFILLX = ('ffill_na', 'ffill_0')
+IX_KINDS = ['date', 'int0', 'int', 'float', 'str', 'range']      # how a label code is rendered; range = the default index
+LABEL_FREE = ('ffill', 'bfill', 'const', 'nona')
 
 
 # ---------------------------------------------------------------------------------------------
@@ -22,22 +30,70 @@ def carriers_of(f):
     return ['arr1', 'ser', 'arr2', 'df'] if len(f['cols']) == 1 else ['arr2', 'df']
 
 
-def build(f, carrier, offsets):
+def value_of(c):
+    if c == NAN:
+        return float('nan')
+    if c in SPECIAL:
+        return SPECIAL[c]
+    if c <= -1000:
+        return float(c + 1000)          # Fill.tla NegInt(k) = -1000 - k  is the float -k
+    return float(c)
+
+
+def label_of(code, ix, offsets):
+    o = offsets[code - 1]
+    if ix == 'date':
+        return BASE + datetime.timedelta(days=o)
+    if ix == 'int0':
+        return int(o)                   # offsets start at 0: the first label is falsy
+    if ix == 'int':
+        return int(o) + 5
+    if ix == 'float':
+        return o + 0.5
+    if ix == 'str':
+        return 'r%04d' % o
+    if ix == 'range':
+        return code - 1
+    raise ValueError(ix)
+
+
+def colnames(k, style=0):
+    """the column labels of the DataFrame carrier play no part: plain, repeated, integer and reversed names take turns"""
+    kind = ('ab', 'ab', 'dup', 'int', 'rev')[(style // 3) % 5]
+    if kind == 'dup':
+        return ['a'] * k
+    if kind == 'int':
+        return list(range(k))
+    if kind == 'rev':
+        return COLNAMES[:k][::-1]
+    return COLNAMES[:k]
+
+
+def ix_for(f, ix):
+    """the default RangeIndex exists for the labels 1..n only"""
+    return 'int0' if ix == 'range' and f['rows'] != list(range(1, len(f['rows']) + 1)) else ix
+
+
+def build(f, carrier, offsets, ix='date', style=0):
     n, k = len(f['rows']), len(f['cols'])
     a = np.full((n, k), np.nan)
     for j, col in enumerate(f['cols']):
         for i, c in enumerate(col):
             if c != NAN:
-                a[i, j] = float(c)
-    idx = pd.DatetimeIndex([BASE + datetime.timedelta(days=offsets[r - 1]) for r in f['rows']])
+                a[i, j] = value_of(c)
     if carrier == 'arr1':
         return a[:, 0].copy()
     if carrier == 'arr2':
         return a
+    ix = ix_for(f, ix)
+    if ix == 'range':
+        return pd.Series(a[:, 0].copy()) if carrier == 'ser' else pd.DataFrame(a, columns=colnames(k, style))
+    labs = [label_of(r, ix, offsets) for r in f['rows']]
+    idx = pd.DatetimeIndex(labs) if ix == 'date' else pd.Index(labs, dtype={'int0': 'int64', 'int': 'int64', 'float': 'float64', 'str': object}[ix])
     if carrier == 'ser':
         return pd.Series(a[:, 0].copy(), idx)
     if carrier == 'df':
-        return pd.DataFrame(a, idx, columns=COLNAMES[:k])
+        return pd.DataFrame(a, idx, columns=colnames(k, style))
     raise ValueError(carrier)
 
 
@@ -51,12 +107,76 @@ def render_method(m, style):
 
 
 def render_methods(ms, style):
-    """style picks among the spellings of the same method list (bare string / list, None / [])"""
+    """style picks among the spellings of the same method list (bare string / list / tuple, None / [])"""
     if len(ms) == 0:
         return None if style % 2 == 0 else []
     if len(ms) == 1 and style % 2 == 0:
         return render_method(ms[0], style // 2)
-    return [render_method(m, style // 2) for m in ms]
+    out = [render_method(m, style // 2) for m in ms]
+    return tuple(out) if style % 12 == 11 else out
+
+
+NAMES = {'ffill': 'ffill', 'bfill': 'bfill', 'backfill': 'bfill', 'nona': 'nona', 'fnna': 'fnna', 'ffill_na': 'ffill_na', 'ffill_0': 'ffill_0'}
+
+
+def unrender_methods(obj):
+    """what a method-list object holds, as the pairs of Fill.tla"""
+    out = []
+    for m in list(obj):
+        if isinstance(m, str):
+            out.append([NAMES.get(m, '?' + m), 0])
+        elif isinstance(m, (int, float)) and not isinstance(m, bool) and m == int(m):
+            out.append(['const', int(m)])
+        else:
+            out.append(['?', 0])
+    return out
+
+
+def first_cell(x, code):
+    """an element read from the data that holds the cell `code` (None if there is none)"""
+    a = x if isinstance(x, np.ndarray) else x.values
+    flat = a.ravel()
+    for i in range(flat.shape[0]):
+        if cell(flat[i]) == code:
+            if isinstance(x, np.ndarray):
+                return x[np.unravel_index(i, x.shape)]
+            if isinstance(x, pd.Series):
+                return x.iloc[i]
+            return x.iat[np.unravel_index(i, a.shape)]
+    return None
+
+
+def render_value(v, spell, x):
+    """the `value` argument of nona: a cell code spelled the way the specification's case says"""
+    if v == NAN:
+        if spell == 'np.nan':
+            return np.nan
+        if spell == 'float':
+            return float('nan')
+        if spell == 'math':
+            return math.nan
+        if spell == 'np.float64':
+            return np.float64('nan')
+        if spell == 'np.float32':
+            return np.float32('nan')
+        if spell == 'negative':
+            return float('-nan')
+        if spell == 'cell':
+            c = first_cell(x, NAN)
+            if c is not None:
+                return c
+        with np.errstate(all='ignore'):
+            return np.float64(np.inf) - np.float64(np.inf)          # 'computed'
+    val = value_of(v)
+    if spell == 'int' and math.isfinite(val) and val == int(val) and struct.pack('<d', val) not in BITS:
+        return int(val)
+    if spell == 'np.float64':
+        return np.float64(val)
+    if spell == 'cell':
+        c = first_cell(x, v)
+        if c is not None:
+            return c
+    return float(val)
 
 
 # ---------------------------------------------------------------------------------------------
@@ -66,26 +186,46 @@ def cell(v):
     try:
         v = float(v)
     except Exception:
-        return -3
+        return UNREADABLE
     if math.isnan(v):
         return NAN
+    b = struct.pack('<d', v)
+    if b in BITS:
+        return BITS[b]
     if v == int(v) and 0 <= v < 2 ** 31 - 1:
         return int(v)
-    return -2                       # a value no input or constant can explain
+    if v == int(v) and -2 ** 30 < v < 0:
+        return int(v) - 1000
+    return UNEXPLAINED                  # a value no input or constant can explain
 
 
-def labels(index, offsets):
-    inv = {BASE + datetime.timedelta(days=o): r + 1 for r, o in enumerate(offsets)}
+def norm_label(t):
+    if isinstance(t, (pd.Timestamp, datetime.datetime, np.datetime64)):
+        return pd.Timestamp(t).to_pydatetime()
+    if isinstance(t, (bool, np.bool_)):
+        return ('bool', bool(t))
+    if isinstance(t, (int, np.integer)):
+        return int(t)
+    if isinstance(t, (float, np.floating)):
+        return float(t)
+    return t
+
+
+def labels(index, offsets, ix='date'):
+    inv = {}
+    for code in range(1, len(offsets) + 1):
+        inv[(type(norm_label(label_of(code, ix, offsets))), norm_label(label_of(code, ix, offsets)))] = code
     out = []
     for t in index:
         try:
-            out.append(inv.get(pd.Timestamp(t).to_pydatetime(), -9))
+            t = norm_label(t)
+            out.append(inv.get((type(t), t), -9))
         except Exception:
             out.append(-9)
     return out
 
 
-def enc_out(res, carrier, k, offsets):
+def enc_out(res, carrier, k, offsets, ix='date', style=0):
     bad = {'kind': 'val', 'dim': 0, 'rows': [], 'cols': [], 'type': type(res).__name__}
     if carrier in ('arr1', 'arr2'):
         if not isinstance(res, np.ndarray):
@@ -98,51 +238,109 @@ def enc_out(res, carrier, k, offsets):
     if carrier == 'ser':
         if not isinstance(res, pd.Series):
             return bad
-        return {'kind': 'val', 'dim': 1, 'rows': labels(res.index, offsets), 'cols': [[cell(v) for v in res.values]]}
-    if not isinstance(res, pd.DataFrame) or list(res.columns) != COLNAMES[:res.shape[1]]:
+        return {'kind': 'val', 'dim': 1, 'rows': labels(res.index, offsets, ix), 'cols': [[cell(v) for v in res.values]]}
+    if not isinstance(res, pd.DataFrame) or list(res.columns) != colnames(k, style)[:res.shape[1]] or res.shape[1] > k:
         return bad
-    return {'kind': 'val', 'dim': 2, 'rows': labels(res.index, offsets),
+    return {'kind': 'val', 'dim': 2, 'rows': labels(res.index, offsets, ix),
             'cols': [[cell(v) for v in res.iloc[:, j].values] for j in range(res.shape[1])]}
 
 
-def enc_after(x, carrier, k, offsets):
+def enc_after(x, carrier, k, offsets, ix='date', style=0):
     if carrier in ('arr1', 'arr2'):
         cols = [[cell(v) for v in x]] if x.ndim == 1 else [[cell(v) for v in x[:, j]] for j in range(x.shape[1])]
         return {'rows': list(range(1, x.shape[0] + 1)), 'cols': cols, 'dtype': str(x.dtype), 'shape': list(x.shape)}
     if carrier == 'ser':
-        return {'rows': labels(x.index, offsets), 'cols': [[cell(v) for v in x.values]], 'dtype': str(x.dtype), 'shape': list(x.shape)}
+        return {'rows': labels(x.index, offsets, ix), 'cols': [[cell(v) for v in x.values]], 'dtype': str(x.dtype), 'shape': list(x.shape)}
     dts = sorted({str(d) for d in x.dtypes})
-    ok = list(x.columns) == COLNAMES[:k]
-    return {'rows': labels(x.index, offsets), 'cols': [[cell(v) for v in x.iloc[:, j].values] for j in range(x.shape[1])],
+    ok = list(x.columns) == colnames(k, style)
+    return {'rows': labels(x.index, offsets, ix), 'cols': [[cell(v) for v in x.iloc[:, j].values] for j in range(x.shape[1])],
             'dtype': (dts[0] if len(dts) == 1 else 'mixed') if ok else 'columns_renamed', 'shape': list(x.shape)}
 
 
+def exp_after(f, carrier):
+    """the encoding of an untouched argument: arrays have no labels (their rows are numbered 1..n)"""
+    n, k = len(f['rows']), len(f['cols'])
+    return {'rows': list(range(1, n + 1)) if carrier in ('arr1', 'arr2') else f['rows'], 'cols': f['cols'], 'dtype': 'float64',
+            'shape': [n] if DIM[carrier] == 1 else [n, k]}
+
+
+RAISED = object()
+
+
+def exc_out(e):
+    return {'kind': 'exc', 'cls': type(e).__name__, 'dim': 0, 'rows': [], 'cols': []}
+
+
 # ---------------------------------------------------------------------------------------------
-# one abstract call on every carrier
+# one abstract call / one abstract history on every carrier
 # ---------------------------------------------------------------------------------------------
 def observe(case):
-    """case: {op, f, ms, lim, edge, style, offsets} -> the observation of Trace_Fill"""
+    """case: {op, f, ms, lim, edge, value, spell, style, offsets, ix, calls} -> the observation of Trace_Fill"""
+    if case['op'] == 'session':
+        return observe_session(case)
     from pyg_base import df_fillna, nona
-    f, offsets = case['f'], case.get('offsets') or S2C_OFFSETS
+    f, offsets, style = case['f'], case.get('offsets') or S2C_OFFSETS, case.get('style', 0)
     k = len(f['cols'])
+    edge, value, spell = case.get('edge', 0), case.get('value', NAN), case.get('spell', 'default')
+    ix = ix_for(f, case.get('ix', 'date'))
     runs = []
     for carrier in carriers_of(f):
-        x = build(f, carrier, offsets)
+        x = build(f, carrier, offsets, ix, style)
+        if case['op'] == 'fillna':
+            marg, limit = render_methods(case['ms'], style), None if case['lim'] == 0 else case['lim']
+        else:
+            kw = {} if edge == 0 and style % 2 else {'edge': None if edge == 0 else edge}
+            varg = None if value == NAN and spell == 'default' else render_value(value, spell, x)
         try:
             with warnings.catch_warnings():
                 warnings.simplefilter('ignore')
                 if case['op'] == 'fillna':
-                    limit = None if case['lim'] == 0 else case['lim']
-                    res = df_fillna(x, render_methods(case['ms'], case.get('style', 0)), limit=limit)
+                    res = df_fillna(x, method=marg, limit=limit) if style % 5 == 4 else df_fillna(x, marg, limit=limit)
+                elif varg is None:
+                    res = nona(x, **kw)
                 else:
-                    edge = None if case['edge'] == 0 else case['edge']
-                    res = nona(x, edge=edge)
-            out = enc_out(res, carrier, k, offsets)
+                    res = nona(x, varg, **kw) if style % 3 == 0 else nona(x, value=varg, **kw)
         except Exception as e:
-            out = {'kind': 'exc', 'cls': type(e).__name__, 'dim': 0, 'rows': [], 'cols': []}
-        runs.append({'carrier': carrier, 'out': out, 'after': enc_after(x, carrier, k, offsets)})
-    return {'op': case['op'], 'f': f, 'ms': case.get('ms', []), 'lim': case.get('lim', 0), 'edge': case.get('edge', 0),
-            'style': case.get('style', 0), 'runs': runs}
+            res, out = RAISED, exc_out(e)
+        if res is not RAISED:
+            out = enc_out(res, carrier, k, offsets, ix, style)
+        runs.append({'carrier': carrier, 'out': out, 'after': enc_after(x, carrier, k, offsets, ix, style)})
+    return {'op': case['op'], 'f': f, 'ms': case.get('ms', []), 'lim': case.get('lim', 0), 'edge': edge, 'value': value, 'spell': spell,
+            'style': style, 'ix': ix, 'lab': case.get('lab', ''), 'runs': runs}
+
+
+def observe_session(case):
+    """a history of df_fillna calls on the caller's objects: the input object x, the shared method-list object M (a list,
+    or a tuple for style % 4 == 3) and the object the previous call returned; every object is re-read after every call"""
+    from pyg_base import df_fillna
+    f, offsets, style = case['f'], case.get('offsets') or S2C_OFFSETS, case.get('style', 0)
+    k = len(f['cols'])
+    ix = ix_for(f, case.get('ix', 'date'))
+    runs = []
+    for carrier in carriers_of(f):
+        x = build(f, carrier, offsets, ix, style)
+        M = [render_method(m, style // 2) for m in case['ms']]
+        if style % 4 == 3:
+            M = tuple(M)
+        prev, steps = x, []
+        for c in case['calls']:
+            inp = x if c['src'] == 'x' else prev
+            marg = M if c['obj'] == 'M' else render_methods(c['ms'], style)
+            limit = None if c['lim'] == 0 else c['lim']
+            try:
+                with warnings.catch_warnings():
+                    warnings.simplefilter('ignore')
+                    res = df_fillna(inp, marg, limit=limit)
+            except Exception as e:
+                res, out = RAISED, exc_out(e)
+            if res is not RAISED:
+                out, prev = enc_out(res, carrier, k, offsets, ix, style), res
+            inp_after = enc_out(inp, carrier, k, offsets, ix, style)
+            steps.append({'out': out, 'after': enc_after(x, carrier, k, offsets, ix, style), 'm_after': unrender_methods(M),
+                          'inp_after': {'rows': inp_after['rows'], 'cols': inp_after['cols']}})
+        runs.append({'carrier': carrier, 'steps': steps})
+    return {'op': 'session', 'f': f, 'ms': case['ms'], 'lim': case.get('lim', 0), 'edge': 0, 'value': NAN, 'spell': 'default',
+            'style': style, 'ix': ix, 'lab': case.get('lab', ''), 'calls': case['calls'], 'runs': runs}
 
 
 def form_of(ms):
@@ -153,16 +351,29 @@ def form_of(ms):
     return 'list_ffillx' if any(m[0] in FFILLX for m in ms) else 'list'
 
 
-def case_key(o, carrier=None):
-    """the stable, matchable description of a failing case: op, form (shape of the method list), two traits of
-    the input (fnna_after_drop: an fnna follows a row-dropping method) and one symptom (columns_lost: a 2-d
-    result came back without its columns), then the input itself"""
-    ms = o['ms']
+def outs_of(o, carrier=None):
     runs = [r for r in o['runs'] if carrier is None or r['carrier'] == carrier]
-    c = {'op': 'df_fillna' if o['op'] == 'fillna' else 'nona', 'form': form_of(ms) if o['op'] == 'fillna' else 'edge%d' % o['edge'],
+    return [s['out'] for r in runs for s in r['steps']] if o['op'] == 'session' else [r['out'] for r in runs]
+
+
+def case_key(o, carrier=None):
+    """the stable, matchable description of a failing case: op, form (shape of the method list / edge of nona / the calls of
+    a history), two traits of the input (fnna_after_drop: an fnna follows a row-dropping method) and one symptom
+    (columns_lost: a 2-d result came back without its columns), then the input itself (everything --replay needs)"""
+    ms = o['ms']
+    if o['op'] == 'fillna':
+        op, form = 'df_fillna', form_of(ms)
+    elif o['op'] == 'nona':
+        op, form = 'nona', 'edge%d' % o['edge']
+    else:
+        op, form = 'session', '+'.join(c['src'] + ':' + c['obj'] for c in o['calls'])
+    c = {'op': op, 'form': form,
          'fnna_after_drop': any(m[0] == 'fnna' and any(p[0] in ('nona', 'fnna') for p in ms[:i]) for i, m in enumerate(ms)),
-         'symptom': 'columns_lost' if any(r['out']['dim'] == 2 and r['out']['cols'] == [] for r in runs) else 'values',
-         'ncols': len(o['f']['cols']), 'ms': ms, 'lim': o['lim'], 'edge': o['edge'], 'f': o['f']}
+         'symptom': 'columns_lost' if any(t['dim'] == 2 and t['cols'] == [] for t in outs_of(o, carrier)) else 'values',
+         'ncols': len(o['f']['cols']), 'ms': ms, 'lim': o['lim'], 'edge': o['edge'], 'value': o.get('value', NAN),
+         'spell': o.get('spell', 'default'), 'ix': o.get('ix', 'date'), 'lab': o.get('lab', ''), 'style': o.get('style', 0), 'f': o['f']}
+    if o['op'] == 'session':
+        c['calls'] = o['calls']
     if carrier:
         c['carrier'] = carrier
     return c
@@ -176,43 +387,84 @@ def nontrivial(f, outs):
     return NAN in cells and any(c != NAN for c in cells) and any(o.get('cols') != f['cols'] for o in outs)
 
 
+def compare_run(viol, o, cr, out, after, f, w, wA):
+    """plain == of one encoded result / re-read argument against the single outcome TLC printed (w: frame, wA: cell matrix)"""
+    if after != exp_after(f, cr):
+        viol.append(('input_modified', case_key(o, cr), {'after': after}))
+    elif out['kind'] == 'exc':
+        viol.append(('raised', case_key(o, cr), {'expected': w, 'observed': out}))
+    elif out['dim'] != DIM[cr]:
+        viol.append(('result_shape', case_key(o, cr), {'expected': w, 'observed': out}))
+    elif cr in ('arr1', 'arr2'):
+        if out['cols'] != wA:
+            viol.append(('array_result', case_key(o, cr), {'expected': wA, 'observed': out['cols']}))
+    elif {'rows': out['rows'], 'cols': out['cols']} != w:
+        viol.append(('pandas_result', case_key(o, cr), {'expected': w, 'observed': {'rows': out['rows'], 'cols': out['cols']}}))
+
+
 def s2c_chunk(cases):
     """replay TLC's cases: plain == against the single expected outcome; cases for which the
     specification admits several outcomes are returned as observations for Trace_Fill"""
     res = []
     for case in cases:
         f = case['f']
-        n, k = len(f['rows']), len(f['cols'])
         viol, deferred, nevals = [], [], 0
-        styles = [case.get('style', 1)]
-        calls = [dict(op='fillna', f=f, ms=case['ms'], lim=case['lim'], style=s, want=case['want']) for s in styles]
-        for e, g in zip((0, 1, -1), case['nonafn']):
-            calls.append(dict(op='nona', f=f, edge=e, want=[g]))
+        style = case.get('style', 1)
+        fam = case.get('fam', 'masks')
+        if fam == 'nona':
+            par = case['par']
+            calls = [dict(op='nona', f=f, edge=par['edge'], value=par['v'], spell=par['spell'], style=style, ix='date',
+                          want=case['want'], wantA=case['wantA'])]
+        else:
+            ix = IX_KINDS[(style // 2) % len(IX_KINDS)] if style % 2 else 'date'      # every other case on another kind of index
+            calls = [dict(op='fillna', f=f, ms=case['ms'], lim=case['lim'], style=style, ix=ix, lab=case.get('par', {}).get('lab', ''),
+                          want=case['want'], wantA=case.get('wantA') or [w['cols'] for w in case['want']])]
+            for e, g in zip((0, 1, -1), case.get('nonafn', [])):
+                calls.append(dict(op='nona', f=f, edge=e, style=style, ix='date', want=[g], wantA=[]))
         nt = False
         for c in calls:
             o = observe(c)
             nevals += len(o['runs'])
-            want = c['want']
             nt = nt or nontrivial(f, [r['out'] for r in o['runs']])
-            if len(want) != 1 or (c['op'] == 'nona' and c['edge'] != 0):
-                deferred.append(o)       # several admitted outcomes: TLC judges (Trace_Fill)
+            if len(c['want']) != 1 or len(c['wantA']) != 1:
+                deferred.append(o)       # several admitted outcomes (also: an array under nona(edge)): TLC judges (Trace_Fill)
                 continue
-            w = want[0]
             for r in o['runs']:
-                cr, out = r['carrier'], r['out']
-                exp_after = {'rows': f['rows'], 'cols': f['cols'], 'dtype': 'float64', 'shape': [n] if DIM[cr] == 1 else [n, k]}
-                if r['after'] != exp_after:
-                    viol.append(('input_modified', case_key(o, cr), {'after': r['after']}))
-                elif out['kind'] == 'exc':
-                    viol.append(('raised', case_key(o, cr), {'expected': w, 'observed': out}))
-                elif out['dim'] != DIM[cr]:
-                    viol.append(('result_shape', case_key(o, cr), {'expected': w, 'observed': out}))
-                elif cr in ('arr1', 'arr2'):
-                    if out['cols'] != w['cols']:
-                        viol.append(('array_result', case_key(o, cr), {'expected': w['cols'], 'observed': out['cols']}))
-                elif {'rows': out['rows'], 'cols': out['cols']} != w:
-                    viol.append(('pandas_result', case_key(o, cr), {'expected': w, 'observed': {'rows': out['rows'], 'cols': out['cols']}}))
+                compare_run(viol, o, r['carrier'], r['out'], r['after'], f, c['want'][0], c['wantA'][0])
         res.append((viol, deferred, nevals, nt))
+    return res
+
+
+def session_chunk(cases):
+    """replay TLC's histories: every step of every carrier against the single outcome TLC printed after that call (==); the
+    input object, the shared method list and the object passed as input are re-read after every call"""
+    res = []
+    for case in cases:
+        f = case['x']
+        calls = [h['c'] for h in case['hist']]
+        o = observe(dict(op='session', f=f, ms=case['m'], lim=case['lim'], calls=calls, style=case.get('style', 0),
+                         ix=IX_KINDS[case.get('style', 0) % len(IX_KINDS)]))
+        viol, deferred = [], []
+        nevals = sum(len(r['steps']) for r in o['runs'])
+        if any(len(h['want']) != 1 for h in case['hist']):
+            deferred.append(o)
+        else:
+            for r in o['runs']:
+                cr, win = r['carrier'], f
+                for s, h in zip(r['steps'], case['hist']):
+                    w = h['want'][0]
+                    before = len(viol)
+                    g = f if h['c']['src'] == 'x' else win
+                    if s['m_after'] != case['m']:
+                        viol.append(('method_list_modified', case_key(o, cr), {'m_after': s['m_after']}))
+                    elif s['inp_after']['cols'] != g['cols'] or (cr in ('ser', 'df') and s['inp_after']['rows'] != g['rows']):
+                        viol.append(('input_modified', case_key(o, cr), {'input_after': s['inp_after'], 'input_before': g}))
+                    else:
+                        compare_run(viol, o, cr, s['out'], s['after'], f, w, w['cols'])
+                    if len(viol) > before:
+                        break            # later steps build on this one
+                    win = w
+        res.append((viol, deferred, nevals, nontrivial(f, outs_of(o))))
     return res
 
 
@@ -221,6 +473,7 @@ def c2s_chunk(cases):
 
 
 PENDING = []       # (clause, case, detail) of the whole run; reported at the end, one representative per kind first
+DEFERRED = []      # S2C observations for which the specification admits several outcomes: Trace_Fill judges them
 
 
 def report(ctx):
@@ -243,10 +496,10 @@ def canonical(cases):
     return sorted(cases, key=lambda c: json.dumps(c, sort_keys=True))
 
 
-def s2c(ctx, cases, tag):
+def s2c(ctx, cases, tag, chunk_fn=s2c_chunk):
     for i, c in enumerate(cases):
-        c['style'] = i % 12              # which spelling of the method list is used for this case
-    out = pmap(s2c_chunk, cases, chunk=250)
+        c['style'] = i % 12              # which spelling of the method list / kind of index is used for this case
+    out = pmap(chunk_fn, cases, chunk=250)
     deferred = []
     for i, (case, (viol, dfr, nevals, nt)) in enumerate(zip(cases, out)):
         PENDING.extend(viol)
@@ -254,11 +507,11 @@ def s2c(ctx, cases, tag):
         ctx.evals += nevals
         ctx.traces += 1
         if nt:
-            ctx.note(('s2c', repr((case['f']['cols'], case['ms'], case['lim']))))
+            ctx.note(('s2c', tag, repr((case.get('f', case.get('x'))['cols'], case.get('ms', case.get('m')), case['lim'], case.get('par'), case.get('hist') and [h['c'] for h in case['hist']]))))
         if i % 20011 == 7:
             ctx.sample({'s2c_case_' + tag: case})
-    if deferred:
-        judge(ctx, deferred)
+    DEFERRED.extend(deferred)            # judged by Trace_Fill together with the C2S observations (one TLC run)
+    ctx.extra['s2c_' + tag] = {'replayed': len(cases), 'judged_by_trace_spec': len(deferred)}
     return len(deferred)
 
 
@@ -267,13 +520,18 @@ def judge(ctx, obs):
     bad = ctx.validate('Trace_Fill', obs)
     for i, clause in bad:
         o = obs[i - 1]
-        PENDING.append((clause, case_key(o), {'runs': [{'carrier': r['carrier'], 'out': r['out']} for r in o['runs']]}))
+        runs = [{'carrier': r['carrier'], 'steps': [s['out'] for s in r['steps']]} if o['op'] == 'session' else {'carrier': r['carrier'], 'out': r['out']}
+                for r in o['runs']]
+        PENDING.append((clause, case_key(o), {'runs': runs}))
     return bad
 
 
 # ---------------------------------------------------------------------------------------------
 # C2S inputs
 # ---------------------------------------------------------------------------------------------
+STRANGE = sorted(SPECIAL) + [-1003, -1001, -2000000]
+
+
 def rand_column(rng, n):
     style = rng.choice(['runs', 'runs', 'runs', 'allnan', 'full', 'sparse', 'lead', 'trail'])
     if style == 'allnan':
@@ -297,7 +555,7 @@ def rand_column(rng, n):
     return col
 
 
-def rand_case(rng):
+def rand_frame(rng):
     n = rng.choice([0, 1, 2, 3, 5, 8, 13, 21, 34, 40, rng.randrange(0, 41)])
     k = rng.choice([1, 1, 2, 2, 3])
     cols = [rand_column(rng, n) for _ in range(k)]
@@ -310,26 +568,108 @@ def rand_case(rng):
     for _ in range(n):
         offs.append(t)
         t += rng.choice([1, 1, 1, 2, 3, 7, 30])
-    if rng.random() < 0.2:
-        return {'op': 'nona', 'f': f, 'edge': rng.choice([0, 1, -1]), 'offsets': offs}
-    names = ['ffill', 'bfill', 'const', 'nona', 'fnna', 'ffill_na', 'ffill_0']
+    return f, offs
+
+
+def rand_methods(rng, names):
     ms = []
     for _ in range(rng.choice([0, 1, 1, 1, 2, 2, 3])):
         nm = rng.choice(names)
         ms.append([nm, rng.choice([0, 7, 5, 123456]) if nm == 'const' else 0])
+    return ms
+
+
+ALL_NAMES = ['ffill', 'bfill', 'const', 'nona', 'fnna', 'ffill_na', 'ffill_0']
+
+
+def rand_case(rng):
+    f, offs = rand_frame(rng)
+    n = len(f['rows'])
+    if rng.random() < 0.2:
+        return {'op': 'nona', 'f': f, 'edge': rng.choice([0, 1, -1]), 'offsets': offs}
+    ms = rand_methods(rng, ALL_NAMES)
     lim = rng.choice([0, 0, 1, 2, 3, 4, 6, max(n, 1), n + 5])
     return {'op': 'fillna', 'f': f, 'ms': ms, 'lim': lim, 'style': rng.randrange(0, 12), 'offsets': offs}
 
 
-def c2s(ctx, ncases):
-    cases = [rand_case(ctx.rng) for _ in range(ncases)]
+def strangify(rng, f, pool):
+    """write strange floats (Fill.tla Specials, negative numbers) over some of the valid cells - and over a few NaNs"""
+    for col in f['cols']:
+        for i in range(len(col)):
+            if rng.random() < (0.3 if col[i] != NAN else 0.05):
+                col[i] = rng.choice(pool)
+
+
+NAN_SPELLS = ['default', 'np.nan', 'float', 'math', 'np.float64', 'np.float32', 'negative', 'computed', 'cell']
+
+
+def rand_case_x(rng):
+    """the corners beside the plain NaN masks: strange cells, other kinds of index, repeated / unsorted labels (for the
+    methods the statement defines by position alone), nona(value, edge) in every spelling, histories on shared objects"""
+    f, offs = rand_frame(rng)
+    n = len(f['rows'])
+    kind = rng.choice(['cells', 'cells', 'index', 'labels', 'nona', 'nona', 'session', 'session'])
+    style = rng.randrange(0, 12)
+    lim = rng.choice([0, 0, 1, 2, 3, max(n, 1)])
+    if kind == 'cells':
+        strangify(rng, f, rng.choice([STRANGE, [-2, -3], [-4, 0], [rng.choice(STRANGE)]]))
+        ms = rand_methods(rng, ALL_NAMES)
+        if rng.random() < 0.5:                   # the plain call: one method, no limit
+            nm = rng.choice(ALL_NAMES)
+            ms, lim = [[nm, rng.choice([0, 7, 5]) if nm == 'const' else 0]], 0
+        return {'op': 'fillna', 'f': f, 'ms': ms, 'lim': lim, 'style': style, 'offsets': offs, 'ix': rng.choice(['date', 'range'])}
+    if kind == 'index':
+        if rng.random() < 0.3:
+            strangify(rng, f, STRANGE)
+        return {'op': 'fillna', 'f': f, 'ms': rand_methods(rng, ALL_NAMES), 'lim': lim, 'style': style, 'offsets': offs,
+                'ix': rng.choice(IX_KINDS[1:])}
+    if kind == 'labels':
+        how = rng.choice(['dup', 'same', 'rev', 'shuffle', 'pairs'])
+        if how == 'dup':
+            f['rows'] = sorted(rng.randrange(1, n + 1) for _ in range(n))
+        elif how == 'same':
+            f['rows'] = [1] * n
+        elif how == 'rev':
+            f['rows'] = list(range(n, 0, -1))
+        elif how == 'shuffle':
+            rng.shuffle(f['rows'])
+        else:
+            f['rows'] = [rng.randrange(1, max(2, n // 2 + 1)) for _ in range(n)]
+        return {'op': 'fillna', 'f': f, 'ms': rand_methods(rng, list(LABEL_FREE)), 'lim': lim, 'style': style, 'offsets': offs, 'lab': how,
+                'ix': rng.choice(['date', 'int', 'float', 'str', 'int0'])}
+    if kind == 'nona':
+        sp = rng.choice([0, 0, -4, -2, -3, 7, -8])
+        strangify(rng, f, [sp, sp, sp, {0: -4, -4: 0, -2: -3, -3: -2}.get(sp, 0)])
+        if len(f['cols']) > 1 and n:
+            for i in rng.sample(range(n), rng.randrange(0, n // 2 + 1)):     # rows entirely the value
+                for c in f['cols']:
+                    c[i] = sp
+        v = rng.choice([NAN, NAN, sp, sp, {0: -4, -4: 0, -2: -3, -3: -2}.get(sp, 5)])
+        spell = rng.choice(NAN_SPELLS) if v == NAN else rng.choice(['int', 'float', 'np.float64', 'cell'])
+        return {'op': 'nona', 'f': f, 'edge': rng.choice([0, 0, 1, -1]), 'value': v, 'spell': spell, 'style': style, 'offsets': offs}
+    if rng.random() < 0.2:
+        strangify(rng, f, STRANGE)
+    m = rand_methods(rng, ALL_NAMES) or [['ffill', 0]]
+    calls = []
+    for _ in range(rng.choice([2, 2, 3, 4])):
+        obj = rng.choice(['M', 'M', 'fresh'])
+        calls.append({'src': rng.choice(['x', 'prev']), 'obj': obj, 'ms': m if obj == 'M' else rand_methods(rng, ALL_NAMES),
+                      'lim': rng.choice([lim, lim, 0, 1])})
+    return {'op': 'session', 'f': f, 'ms': m, 'lim': lim, 'calls': calls, 'style': style, 'offsets': offs, 'ix': rng.choice(['date', 'date', 'range', 'int'])}
+
+
+def c2s(ctx, ncases, nx):
+    cases = [rand_case(ctx.rng) for _ in range(ncases)] + [rand_case_x(ctx.rng) for _ in range(nx)]
     obs = pmap(c2s_chunk, cases, chunk=100)
-    ctx.evals += sum(len(o['runs']) for o in obs)
-    judge(ctx, obs)
+    ctx.evals += sum(len(r.get('steps', [0])) for o in obs for r in o['runs'])
+    judge(ctx, obs + DEFERRED)
+    del DEFERRED[:]
     for o in obs:
-        if nontrivial(o['f'], [r['out'] for r in o['runs']]):
-            ctx.note(('c2s', repr((o['f']['cols'], o['ms'], o['lim'], o['op'], o['edge']))))
-    ctx.sample({'c2s_observation': obs[len(obs) // 2]})
+        if nontrivial(o['f'], outs_of(o)):
+            ctx.note(('c2s', repr((o['f']['cols'], o['f']['rows'] if o.get('lab') else 0, o['ms'], o['lim'], o['op'], o['edge'], o['value'], o['spell'],
+                                   o.get('calls')))))
+    ctx.sample({'c2s_observation': obs[ncases // 2]})
+    ctx.sample({'c2s_observation_x': obs[ncases + nx // 2]})
     return obs
 
 
@@ -337,7 +677,9 @@ def replay(ctx, body):
     """./check C12 --replay <file>: run the recorded case again and let Trace_Fill judge it"""
     import json, shutil
     c = body['case']
-    o = observe({'op': 'fillna' if c['op'] == 'df_fillna' else 'nona', 'f': c['f'], 'ms': c['ms'], 'lim': c['lim'], 'edge': c['edge'], 'style': 1})
+    o = observe({'op': {'df_fillna': 'fillna', 'nona': 'nona', 'session': 'session'}[c['op']], 'f': c['f'], 'ms': c['ms'], 'lim': c['lim'],
+                 'edge': c['edge'], 'value': c.get('value', NAN), 'spell': c.get('spell', 'default'), 'ix': c.get('ix', 'date'),
+                 'lab': c.get('lab', ''), 'calls': c.get('calls', []), 'style': c.get('style', 1)})
     bad = ctx.validate('Trace_Fill', [o])
     print(json.dumps({'case': c, 'runs': o['runs']})[:4000])
     print('REPLAY property=C12 %s' % ('rejected: %s' % bad[0][1] if bad else 'accepted by the specification'))
@@ -345,33 +687,73 @@ def replay(ctx, body):
     return 1 if bad else 0
 
 
+def by_family(cases):
+    out = {}
+    for c in cases:
+        out.setdefault(c['fam'], []).append(c)
+    return out
+
+
 def run(ctx):
     ctx.rule = ('S2C: every (NaN mask, method list, limit) TLC enumerates is replayed on np.ndarray (1-d and n x k), pd.Series '
-                'and pd.DataFrame (date index) and compared with == to the outcome TLC printed (argument re-read after the '
-                'call: cells, dtype, shape); cases with several admitted outcomes, nona(edge) and the C2S runs (random vectors '
-                '/ frames <= 40 rows, 1-3 columns, lists of <= 3 methods) are judged by Trace_Fill.  Non-trivial = the input '
-                'has both NaN and valid cells and the call changed something; distinct by (cells, methods, limit).')
+                'and pd.DataFrame (date index; every other case on an integer / float / string / default index) and compared '
+                'with == to the outcome TLC printed (argument re-read after the call: cells, dtype, shape).  The same for the '
+                'families of MC_FillX - frames with strange floats (+-inf, -0.0, extreme, fractional, negative cells), repeated '
+                'and unsorted row labels, nona(value, edge) in every spelling of NaN and of numbers - and for the histories '
+                'of MC_FillS (calls on the input object / the previous result with a shared method-list object; every object '
+                're-read after every call).  Cases with several admitted outcomes and the C2S runs (random vectors / frames '
+                '<= 40 rows, 1-3 columns, lists of <= 3 methods; the same corners at random, histories of 2-4 calls) are '
+                'judged by Trace_Fill.  Non-trivial = the input has both NaN and valid cells and a call changed something; '
+                'distinct by (cells, methods, limit, family parameters / calls).')
+    rng = ctx.rng
     if ctx.quick:
         ctx.mc('MC_Fill', 'MC_Fill_quick.cfg')
         cases = canonical(ctx.generate('MC_Fill', 'MC_Fill_gen.cfg'))
         short = [c for c in cases if len(c['ms']) <= 1]
         pairs = [c for c in cases if len(c['ms']) > 1]
-        s2c(ctx, short + ctx.rng.sample(pairs, 7000), 'quick')     # thorough replays every case
+        s2c(ctx, short + rng.sample(pairs, 7000), 'quick')     # thorough replays every case
         ctx.extra['s2c_enumerated'] = len(cases)
-        c2s(ctx, 400)
+        fams = by_family(canonical(ctx.mc('MC_FillX', 'MC_FillX_quick.cfg').emitted))
+        ctx.extra['s2c_enumerated_x'] = {k: len(v) for k, v in fams.items()}
+        # every strange float x every single method on every vector (all four carriers), a seeded sample of the rest
+        core = [c for c in fams['cells'] if c['lim'] == 0 and len(c['f']['cols']) == 1]
+        rest = [c for c in fams['cells'] if not (c['lim'] == 0 and len(c['f']['cols']) == 1)]
+        s2c(ctx, core + rng.sample(rest, 700) + rng.sample(fams['labels'], 1200) + rng.sample(fams['nona'], 1500), 'corners')
+        hists = canonical(ctx.mc('MC_FillS', 'MC_FillS_quick.cfg').emitted)
+        ctx.extra['s2c_enumerated_histories'] = len(hists)
+        s2c(ctx, rng.sample(hists, 1200), 'histories', session_chunk)
+        c2s(ctx, 400, 500)
     else:
         ctx.mc('MC_Fill', 'MC_Fill_thorough.cfg')
         ctx.mc('MC_Fill', 'MC_Fill_thorough3.cfg')
+        ctx.mc('MC_FillS', 'MC_FillS_consume.cfg', must_fail='SRefines')       # the list-consuming dispatcher breaks the second call
+        ctx.mc('MC_FillS', 'MC_FillS_thorough.cfg')
         s2c(ctx, canonical(ctx.generate('MC_Fill', 'MC_Fill_gen_big.cfg')), 'big')
         s2c(ctx, canonical(ctx.generate('MC_Fill', 'MC_Fill_gen3.cfg')), 'triples')
-        c2s(ctx, 6000)
+        s2c(ctx, canonical(ctx.mc('MC_FillX', 'MC_FillX_thorough.cfg').emitted), 'corners')
+        hists = canonical(ctx.mc('MC_FillS', 'MC_FillS_gen.cfg').emitted)
+        ctx.extra['s2c_enumerated_histories'] = len(hists)
+        s2c(ctx, rng.sample(hists, min(len(hists), 40000)), 'histories', session_chunk)
+        c2s(ctx, 6000, 6000)
     report(ctx)
     ctx.exhaustive = False
     ctx.assumptions += [
-        'cells are data-independent: values are non-negative integer-valued floats (NaN = -1 in the encoding); position codes in MC',
-        'small-scope: MC/S2C vectors <= 6 (thorough 8) cells, frames <= 4x2 (thorough 5x2), lists of <= 2 (thorough 3) methods; C2S <= 40 rows',
+        'cells are data-independent: values are non-negative integer-valued floats (NaN = -1 in the encoding), position codes in MC; '
+        'plus the strange floats of Fill.tla Specials (+inf, -inf, -0.0, +-largest double, smallest subnormal, 0.5, -3.5) and negative '
+        'integers, compared bit-exactly (0.0 and -0.0 are different cells)',
+        'small-scope: MC/S2C vectors <= 6 (thorough 8) cells, frames <= 4x2 (thorough 5x2), lists of <= 2 (thorough 3) methods; strange-cell / '
+        'label / nona(value) families on vectors <= 3-4 (thorough 4-5) and frames <= 2x2 (thorough 3x2); histories of 2 (MC thorough: 3) calls '
+        'on vectors <= 3 (thorough 4; frames 2x2); C2S <= 40 rows, histories of 2-4 calls',
+        'IncreasingIndex: fnna, ffill_na, ffill_0 and nona(edge) find their boundary BY LABEL; they are exercised on strictly increasing '
+        'indexes only (date, integer - also starting at the falsy 0 -, float, string, default RangeIndex); ffill, bfill, constants and nona, '
+        'which the statement defines by position alone, also on repeated, constant, decreasing and shuffled labels.  nona(edge=+-1) is '
+        'exercised on date indexes only (df_slice reads integer bounds as positions)',
         'named deviations accepted by the specification: ConstLimit (a constant under a limit fills all or the first `limit` NaNs per column), '
         'NoValidObservation (ffill_na/ffill_0 on a column without any valid cell: unchanged or all tail value), '
-        'ArrayIgnoresEdge (nona(array, edge) ignores edge; edge is not part of the statement)',
-        'interpolation methods, "pad" (rejected by pandas 3), axis=1 and nona(value=...) are outside the statement and not exercised',
+        'ArrayIgnoresEdge (nona(array, edge) ignores edge; edge is not part of the statement), InfEitherSign (nona(value=+-inf) may take '
+        'the rows that are entirely infinite of either sign)',
+        'nona(value=v): every NaN object (np.nan, float("nan"), math.nan, numpy scalars of both widths, a negative NaN, a computed one, a cell '
+        'read from the data) means the rows that are entirely NaN; a number means the rows all of whose cells equal it (0 == -0.0)',
+        'interpolation methods, "pad" (rejected by pandas 3), axis=1, a NaN / date as a fill method and non-numeric nona values are outside the '
+        'statement and not exercised',
     ]
